@@ -126,6 +126,7 @@ func c08CompileJobs() []c08CompileJob {
 	sharedMapOpt := expr.Env(mapEnv)
 	undef := expr.AllowUndefinedVariables()
 	opS, opSI := expr.Operator("+", "AddS"), expr.Operator("+", "AddS", "AddI") // two tables for one operator, overlapping
+	sharedListWithNil := []expr.Option{sharedEnvOpt, nil, undef, expr.Optimize(true)}
 	return []c08CompileJob{
 		{`S + Tag + (I + 1 > 0 ? "x" : "y")`, func(y *c08Yield) []expr.Option {
 			return []expr.Option{sharedEnvOpt, opSI, opS, expr.Patch(y)}
@@ -135,6 +136,15 @@ func c08CompileJobs() []c08CompileJob {
 		}},
 		{`I + len(S) + len(7..6)`, func(y *c08Yield) []expr.Option { // the same folded constant at another position
 			return []expr.Option{sharedEnvOpt, expr.Patch(y)}
+		}},
+		{`1 % 0 + I`, func(y *c08Yield) []expr.Option { // rejected by the constant folder: the error (position, snippet) is the result
+			return []expr.Option{sharedEnvOpt, expr.Patch(y)}
+		}},
+		{"I +\n   7 / (3 - 3)", func(y *c08Yield) []expr.Option {
+			return []expr.Option{sharedEnvOpt, expr.Patch(y)}
+		}},
+		{`I + len(S)`, func(y *c08Yield) []expr.Option { // ONE option slice shared by every call, with a nil entry in the middle
+			return sharedListWithNil
 		}},
 		{`S + Tag + "x"`, func(y *c08Yield) []expr.Option {
 			return []expr.Option{sharedEnvOpt, opS, expr.Patch(y)} // the same option VALUE as in the job above
@@ -177,7 +187,7 @@ func c08CompileScenarios(r *report.Run, order *int64) (schedules, steps int64, c
 			combos = append(combos, []int{a, b})
 		}
 	}
-	combos = append(combos, []int{3, 6, 7}, []int{5, 5, 6}, []int{4, 6, 8}, []int{6, 8, 8}, []int{0, 0, 3}, []int{1, 2, 4})
+	combos = append(combos, []int{6, 9, 10}, []int{8, 8, 9}, []int{7, 9, 11}, []int{9, 11, 11}, []int{0, 0, 6}, []int{1, 2, 7}, []int{3, 4, 4}, []int{5, 5, 9})
 	type pass struct {
 		combos [][]int
 		fine   bool
@@ -205,7 +215,7 @@ func c08CompileScenarios(r *report.Run, order *int64) (schedules, steps int64, c
 			}
 			if ps.fine {
 				bound = 1 // about 10x more scheduling points per thread: every single preemption (thorough: two, on the pairs that share option values)
-				if r.Tier == "thorough" && (combo[0] <= 3 || combo[0] == combo[1]) {
+				if r.Tier == "thorough" && (combo[0] <= 6 || combo[0] == combo[1]) {
 					bound = 2
 				}
 			}
